@@ -50,7 +50,7 @@ def scoped_stream(ctx: fw.Ctx, n_random: int):
                     for depth in (1, 2, 3, 4):
                         for nm in names:
                             p = "@" * depth + nm
-                            info = {"wrapper": wname, "layers": len(layers), "inside": inside, "depth": depth}
+                            info = {"wrapper": wname, "layers": len(layers), "inside": inside, "depth": depth, "stream": "fixed"}
                             hists.append(ec.run_real(text, [("set", p, "7")], dict(info, op="set")))
                             hists.append(ec.run_real(text, [("rm", p)], dict(info, op="rm")))
     for _ in range(n_random):
@@ -155,7 +155,8 @@ def observe(ctx: fw.Ctx, hists, count_case: bool = True):
             separated = adj != len(layers)
             outer, layers = layers[: len(layers) - adj], layers[len(layers) - adj:]
             n = len(layers)
-            inp = {"doc": h.text, "ops": [list(x.op) for x in h.recs], "at": list(r.op), "before": r.before_text}
+            inp = {"doc": h.text, "ops": [list(x.op) for x in h.recs], "at": list(r.op), "before": r.before_text,
+                   "stream": h.info.get("stream")}
             key = {"op": r.op[0], "separated": separated, "wrapper": h.info.get("wrapper")}
             if r.result != "ok":
                 if r.op[0] == "set" and ep.value_as_tree(r.op[2]) is None:
